@@ -1,6 +1,7 @@
 /- Line-protocol driver for C17 (level registry) and the `Q` quoting probes. -/
 import Logg.Bridge.Registry
 import Logg.Gen.Decisions
+import Logg.Model.Logfmt
 import Logg.Lemmas.SgrBase
 import Logg.Model.Unquote
 import Logg.Model.IsPrint
@@ -66,6 +67,12 @@ def stepQ (toks : List String) : String :=
   | ["sgr", s] => match ofHex s with
     | some s => let st := sgrScan Sgr.init s
                 if st.mode == 0 && !st.nz && !st.bad && !st.colored then "clean" else "dirty"
+    | none => "bad-op"
+  | ["tok", s] => match ofHex s with
+    | some s =>
+      match (logfmtTokens s).mapM splitPair with
+      | some ps => "ok " ++ " ".intercalate (ps.map fun p => toHex p.1 ++ ":" ++ toHex p.2)
+      | none => "err"
     | none => "bad-op"
   | ["junq", s] => match ofHex s with | some s => optHex (jsonUnquote s) | none => "bad-op"
   | _ => "bad-op"
